@@ -71,12 +71,13 @@ def order_tie():
     return _run_tie("translator:pams/order.py", src, lambda: py2coq_order.translate(src), "OrderGen.v", "OrderGenProofs.v", "OrderGen.")
 
 
-def arith_tie():
-    """PriceLimitRule.get_limited_price (C15) and Market.convert_to_tick_level* / convert_to_price (C19)"""
+def arith_tie(group):
+    """group C15: PriceLimitRule.get_limited_price; C19: Market.convert_to_tick_level* / convert_to_price;
+    C03: Market.remain_executable_orders"""
     import py2coq_arith
-    return _run_tie("translator:pams/events/price_limit_rule.py+pams/market.py(tick conversions)",
-                    [os.path.join(REPO, "pams/events/price_limit_rule.py"), os.path.join(REPO, "pams/market.py")],
-                    lambda: py2coq_arith.translate_all(REPO), "ArithGen.v", "ArithGenProofs.v", "ArithGen.")
+    files = {"C15": ["pams/events/price_limit_rule.py"], "C19": ["pams/market.py"], "C03": ["pams/market.py"]}[group]
+    return _run_tie(f"translator:{'+'.join(files)}({group} kernel)", [os.path.join(REPO, f) for f in files],
+                    lambda: py2coq_arith.translate_all(REPO, groups=(group,)), "ArithGen.v", f"Arith{group}Proofs.v", "ArithGen.")
 
 
 # ---------------------------------------------------------------------------------------------------------------
